@@ -411,7 +411,7 @@ def check_protected(ctx, mod, result_enum):
             sinks = pc.site_conditions(a["body"], is_sink)
             ctx.check(len(sinks) >= 1, rule, fn, f"{origin}:non-deny-results", f"{len(sinks)} non-Deny result site(s)",
                       f"no non-Deny result found in the {origin} arm (shape not understood)", file=rec["file"], line=a["body"].get("line"))
-            for (s, conds) in sinks:
+            for si, (s, conds) in enumerate(sinks):
                 ok = False
                 lits = pc.implied(conds, binds)
                 for (p, leaf) in lits.values():
@@ -428,7 +428,7 @@ def check_protected(ctx, mod, result_enum):
                         if len(cmps) == 1 and not others and len([l for (_, l) in conj if l[1] == "expr"]) == 1 \
                                 and all(has_token(tokens(l[2][1]), "call", "get_uuid") for l in lets) and uuid_operand_ok(cmps[0], binds, lets):
                             ok = True
-                ctx.check(ok, rule, fn, f"{origin}:{short(def_of(s), 1)}-behind-anonymous-test",
+                ctx.check(ok, rule, fn, f"{origin}:{short(def_of(s), 1)}#{si + 1}-behind-anonymous-test",
                           f"{short(def_of(s), 2)} only when not (uuid <= UUID_ANONYMOUS)",
                           f"{mod}::protected_filter_entry can return {short(def_of(s), 2)} for origin {origin} without `entry uuid <= UUID_ANONYMOUS => Deny` "
                           f"having been evaluated on that path — a built-in entry (uuid up to and including UUID_ANONYMOUS) is no longer "
@@ -529,7 +529,9 @@ def run(ctx):
     en = F.item(LIB, "enum", MODIFY)
     vs = [v["v"] for v in en["variants"]] if en else []
     ctx.floor("K4-uuid-immutable", "Modify variants", len(vs), 5)
-    need = [v for v in vs if v != "Assert"]
+    # attribute-bearing = first field is the Attribute the modification targets; Assert only compares, it never changes the entry
+    need = [v["v"] for v in (en["variants"] if en else []) if v["v"] != "Assert" and v["fields"] and v["fields"][0]["ty"].endswith("attribute::Attribute")]
+    ctx.floor("K4-uuid-immutable", "attribute-bearing Modify variants", len(need), 4)
     pm = hook_fn(ctx, "base", "Base", "pre_modify")
     pb = hook_fn(ctx, "base", "Base", "pre_batch_modify")
     a = modify_table(ctx, pm, "modlist", need)
